@@ -22,7 +22,7 @@ type f12 struct{ c0, c1 f6 }
 type tower struct{ p *big.Int }
 
 func (t tower) red(v *big.Int) *big.Int { return new(big.Int).Mod(v, t.p) }
-func (t tower) add2(x, y f2) f2       { return f2{t.red(add(x.a, y.a)), t.red(add(x.b, y.b))} }
+func (t tower) add2(x, y f2) f2         { return f2{t.red(add(x.a, y.a)), t.red(add(x.b, y.b))} }
 func (t tower) mul2(x, y f2) f2 {
 	return f2{t.red(sub(new(big.Int).Mul(x.a, y.a), new(big.Int).Mul(x.b, y.b))), t.red(add(new(big.Int).Mul(x.a, y.b), new(big.Int).Mul(x.b, y.a)))}
 }
